@@ -76,7 +76,17 @@ func (e *Engine) verifyClosure(parent *Contract, cc *Contract) (res *UnitResult)
 					if call, isCall := ast.Unparen(rs.Results[0]).(*ast.CallExpr); isCall && normKey(e.nodeSrc(call.Fun)) == normKey(cc.Delegates) {
 						ok = true
 						for _, a := range call.Args {
-							if _, isId := ast.Unparen(a).(*ast.Ident); !isId {
+							// arguments are variables or field paths of variables, nothing computed
+							pure := true
+							ast.Inspect(a, func(n ast.Node) bool {
+								switch n.(type) {
+								case nil, *ast.Ident, *ast.SelectorExpr, *ast.ParenExpr:
+									return true
+								}
+								pure = false
+								return false
+							})
+							if !pure {
 								ok = false
 							}
 						}
